@@ -281,6 +281,12 @@ FNUNITS = [
     ("Vgp", "hdf/src/vgp.c", ["vpackvg"], {"ignore_calls": ["HEclear", "HEPclear", "HEpush"]}),
     # C07 / C02: the vdata header encoder (field table, field names = an array of rows)
     ("Vio", "hdf/src/vio.c", ["vpackvs"], {"ignore_calls": ["HEclear", "HEPclear", "HEpush"]}),
+    # C12: the bit vector behind the reference-number allocator (struct parameter with a growing buffer: realloc, memset; static tables as
+    # globals from H4.Gen.Bitvect; bv_find_next_zero calls the translated bv_set)
+    ("Bitvect2", "hdf/src/bitvect.c", ["bv_get", "bv_set", "bv_find_next_zero"],
+     {"ignore_calls": ["HEclear", "HEPclear", "HEpush"], "imports": ["H4.Gen.Bitvect"], "int_types": {"bv_bool": [False, 32], "bv_base": [False, 8]},
+      "twos_complement_bitops": True,
+      "globals": {"bv_bit_value": "H4.Gen.Bitvect.bv_bit_value", "bv_first_zero": "H4.Gen.Bitvect.bv_first_zero", "bv_bit_mask": "H4.Gen.Bitvect.bv_bit_mask"}}),
     # C05: the run-length coder state machines (switch on the coder state, stream I/O through HDgetc/HDputc/Hread/Hwrite modelled as an input
     # stream with position and an output stream; enum constants are compiled and printed)
     ("Crle", "hdf/src/crle.c", ["HCIcrle_encode", "HCIcrle_term", "HCIcrle_decode"],
